@@ -134,6 +134,18 @@ def r13_3(cx):
     ok_idx = idx is not None and m.is_mod_len(idx, all_seq_loads)
     cx.check(ok_idx, 'slot-index', fn, rd.loc(), 'slot read is snapshots[sequence mod len] with sequence an Acquire-loaded value: ' + show(rd.arg(0)),
              fail_detail='the slot read is not indexed by the loaded sequence: ' + show(rd.arg(0)))
+    # ... chosen anew on every attempt: the index is computed inside the retry loop, after the sequence it is checked
+    # against was (re)assigned (expressions are flow-insensitive: a slot picked once before the loop looks the same)
+    loops = [fn.loop_blocks(h) for h in fn.loop_headers()]
+    loops = [l for l in loops if rd.bb in l]
+    ipos = None
+    if idx is not None:
+        for n in idx.walk():
+            if n.kind == 'binop' and n.op == 'Rem' and n.pos is not None:
+                ipos = n.pos
+    fresh = bool(loops) and ipos is not None and all(ipos.bb in l for l in loops)
+    cx.check(fresh, 'slot-chosen-per-attempt', fn, rd.loc(), 'the slot index is recomputed inside the retry loop',
+             fail_detail='the slot is chosen outside the retry loop: a retrying reader re-reads the slot of the old sequence and validates it against the new one')
     for rb in fn.returns():
         cx.count_paths()
         good = None
